@@ -107,6 +107,13 @@ class Trace:
         le = next((x["s"] for x in self.loop_ends if x["s"] > f), None)
         return le if le is not None else (self.events[-1]["s"] if self.events else seq)
 
+    def report(self, trial, run, idx):
+        """The report with position `idx` in the run's own sequence of reports."""
+        reps = self.runs[(trial, run)]["reports"]
+        if idx < len(reps) and reps[idx].get("idx") == idx:
+            return reps[idx]
+        return next(r for r in reps if r.get("idx") == idx)
+
     def runs_of(self, trial):
         return sorted((r for (t, _), r in self.runs.items() if t == trial), key=lambda r: r["run"])
 
